@@ -114,6 +114,9 @@ class Frame:
             if name in f.locals:
                 return f.locals[name]
             f = f.parent
+        ov = V.cur().ghost.get("globals") if V._current else None
+        if ov and name in ov:
+            return ov[name]
         g = self.mod.real.__dict__
         if name in g:
             return g[name]
@@ -730,7 +733,7 @@ class Interp:
 
     def iter_view(self, st, it):
         """Something with seq_len / seq_get."""
-        if isinstance(it, (tuple, SSeq, SRange, LRef)):
+        if isinstance(it, (tuple, SSeq, SRange, LRef)) or type(it).__name__ == "SText":
             return it
         if isinstance(it, list):
             return tuple(it)
@@ -935,25 +938,55 @@ class Interp:
         raise Unsupported(f"binary op {type(op).__name__} on {type(a).__name__}, {type(b).__name__}")
 
     def bitop(self, st, t, a, b):
-        """Bit operations on non-negative ints, through BitVec of the task's declared width."""
-        w = getattr(self.task, "bv_width", 64)
-        if t is ast.LShift and isinstance(b, int):
+        """Bit operations on non-negative ints, in integer arithmetic:
+        x & const-mask = sum over the mask's bit runs of ((x // 2^lo) % 2^len) * 2^lo ;  x << k = x * 2^k ;
+        x >> k = x // 2^k ;  x | y = x + y when their set bits provably cannot overlap
+        (x a multiple of 2^k and 0 <= y < 2^k) ; anything else through BitVec of the declared width."""
+        if t is ast.LShift and isinstance(b, int) and b >= 0:
             return a * (2**b)
-        if t is ast.RShift and isinstance(b, int):
+        if t is ast.RShift and isinstance(b, int) and b >= 0:
             return a // (2**b)
-        if t is ast.BitAnd and isinstance(b, int) and b >= 0 and (b & (b + 1)) == 0:
-            st_ok = V._cmp(">=", a, 0)
-            if st.branch(st_ok) is True:
-                return a % (b + 1)
+        if t is ast.BitAnd and (isinstance(a, int) or isinstance(b, int)):
+            x, m = (b, a) if isinstance(a, int) else (a, b)
+            if m >= 0:
+                self._require_nonneg(st, x, "&")
+                total = 0
+                k = 0
+                while (1 << k) <= m:
+                    if m >> k & 1:
+                        lo = k
+                        while m >> k & 1:
+                            k += 1
+                        total = total + ((x // (1 << lo)) % (1 << (k - lo))) * (1 << lo)
+                    else:
+                        k += 1
+                return total
+        if t is ast.BitOr:
+            for k in (6, 12, 18, 8, 16, 4, 2, 1, 24, 7, 9, 10, 32):
+                for x, y in ((a, b), (b, a)):
+                    cond = both(V._cmp("==", x % (1 << k), 0) if not isinstance(x, int) else x % (1 << k) == 0, V._cmp(">=", y, 0), V._cmp("<", y, 1 << k), V._cmp(">=", x, 0))
+                    if cond is True:
+                        return x + y
+                    if cond is not False:
+                        r, _m = st._check(z3.Not(V._zb(cond)), st.cfg.branch_timeout_ms)
+                        if r == z3.unsat:
+                            return x + y
+        w = getattr(self.task, "bv_width", 64)
         za, zb = z3.Int2BV(V._z(a), w), z3.Int2BV(V._z(b), w)
         for x in (a, b):
-            c = both(V._cmp(">=", x, 0), V._cmp("<", x, 2 ** (w - 1)))
-            if c is not True:
-                r, _ = st._check(z3.Not(V._zb(c)), st.cfg.branch_timeout_ms)
-                if r != z3.unsat:
-                    raise Unsupported(f"bit operation operand not provably within [0, 2^{w - 1})")
+            self._require_nonneg(st, x, "bit operation", hi=2 ** (w - 1))
         r = {ast.BitAnd: lambda x, y: x & y, ast.BitOr: lambda x, y: x | y, ast.BitXor: lambda x, y: x ^ y, ast.LShift: lambda x, y: x << y, ast.RShift: lambda x, y: z3.LShR(x, y)}[t](za, zb)
         return mk_int(z3.BV2Int(r, False))
+
+    def _require_nonneg(self, st, x, what, hi=None):
+        c = V._cmp(">=", x, 0) if hi is None else both(V._cmp(">=", x, 0), V._cmp("<", x, hi))
+        if c is True:
+            return
+        if c is False:
+            raise Unsupported(f"{what} on a negative operand")
+        r, _ = st._check(z3.Not(V._zb(c)), st.cfg.branch_timeout_ms)
+        if r != z3.unsat:
+            raise Unsupported(f"{what}: operand not provably non-negative" + (f" and below {hi}" if hi else ""))
 
     @staticmethod
     def _concrete_binop(op, a, b):
@@ -1138,6 +1171,8 @@ class Interp:
             return self.obj_getattr(st, obj, name)
         if isinstance(obj, SOpaque):
             return self.task.opaque_getattr(self, st, obj, name)
+        if type(obj).__name__ == "SText":
+            return Method(obj, name)
         if isinstance(obj, (LRef, SSlice, SSeq, DRef, SRange)):
             if isinstance(obj, SSlice) and name in ("start", "stop", "step"):
                 return getattr(obj, name)
@@ -1145,6 +1180,10 @@ class Interp:
         if isinstance(obj, SExc):
             if name == "args":
                 return obj.args
+            if name == "__traceback__":
+                return None
+            if name == "with_traceback":
+                return Method(obj, "with_traceback")
             raise Unsupported(f"exception attribute {name}")
         if isinstance(obj, Sym):
             raise Unsupported(f"attribute {name} of {type(obj).__name__}")
@@ -1302,6 +1341,11 @@ class Interp:
             return self.eval(V.cur(), e.elt, cfr)
 
         r = SSeq(n, getter, None, None, "comp")
+        h = getattr(self.task.c, "comprehension_sum", None)
+        if h is not None:
+            sv = h(self, st, e, fr, seq)
+            if sv is not None:
+                r.psum = lambda k, sv=sv: sv(k)
         if not uses_target:
             cfr = Frame(fr.fn, fr.mod, parent=fr)
             cfr.self_obj = fr.self_obj
